@@ -137,6 +137,23 @@ def cparams_static_lines(rng, quick):
                             out.append(line(cp, row, stream, (0, 8, 24, 56)[idx % 4], sizes_for(w), by_cparams=False))
                         idx += 1
     out.sort(key=lambda lm: "1011=" in lm[0])       # row finder left to the library first (stable)
+    # long-distance matching switched on BY THE LIBRARY (strategy >= btopt and a window log of 27 that the source does not shrink): the estimates must
+    # resolve the automatic switch and budget its tables (defect repaired in /repo 3f7e135).  Streaming with the size unknown keeps the window log, so
+    # the first call of a 120 KB source already needs them; the static block is ~135 MB of address space, touched only where used.  One-shot needs a
+    # source above 64 MiB for the window to stay: thorough tier only; a small one-shot source (switch resolves to off) checks the other direction.
+    ldm_lines = []
+    for k, st in enumerate((7, 8, 9)):
+        cp = (27, 6 + k, 6 + 2 * k, 1 + k, 4 if st == 7 else 3 + k % 2, 0, st)
+        ldm_lines.append(line(cp, 0, 1, (0, 24, 56)[k], [120000, 70000, 300], pledged_known=False, by_cparams=False))
+    ldm_lines.append(line((27, 7, 6, 1, 4, 0, 8), 0, 0, 8, [300, 100000], by_cparams=False))
+    if not quick:
+        for k, st in enumerate((7, 8, 9)):
+            cp = (27 + k % 2, 7, 7 + k, 2, 4, 0, st)
+            ldm_lines.append(line(cp, 0, 1, 8 * k, [120000, 64000], pledged_known=False, by_cparams=True))
+            ldm_lines.append(line(cp, 0, 1, 8 * k, [(1 << 26) + 5000, 120000], pledged_known=True, by_cparams=False))
+        ldm_lines.append(line((27, 6, 6, 1, 4, 0, 7), 0, 0, 0, [(1 << 26) + 4096, 5000], by_cparams=False))
+        ldm_lines.append(line((27, 6, 6, 1, 4, 0, 7), 0, 0, 0, [(1 << 26) + 4096], by_cparams=True))
+    out = out[:6] + ldm_lines + out[6:]
     for i in range(10 if quick else 300):
         w = rng.randint(10, 19)
         cp = (w, rng.randint(6, w + 1), rng.randint(6, w + 2), rng.randint(1, 7), rng.randint(3, 7), rng.choice([0, 16, 999]), rng.randint(1, 9))
